@@ -75,10 +75,26 @@ def gen_case(seed):
     write_into = rnd.random() < 0.5
     if kind in ("upload_file", "download_file") and write_into and dest in ("", "/"):
         dest = "newname.bin"  # with write_into the destination names the file itself
+    tree = gen_tree(rnd)
+    shape = rnd.random()
+    if shape < 0.05:
+        # a deep chain: "every tree shape" includes subtrees far deeper than anything in the suite
+        depth = rnd.choice([12, 31, 33, 40, 64])
+        tree = {"bottom.bin": b"deep"}
+        for lvl in range(depth):
+            tree = {rnd.choice("abcde"): tree}
+            if rnd.random() < 0.2:
+                tree["side%d.txt" % lvl] = bytes([lvl])
+    elif shape < 0.09:
+        # one wide directory
+        width = rnd.choice([90, 130, 260])
+        sub = {"n%03d" % i: (b"" if i % 3 else bytes([i & 0xFF])) for i in range(width)}
+        sub["sub"] = {"x": b"x"}
+        tree = {"wide": sub, "f": b"f"}
     return {
         "seed": seed,
         "kind": kind,
-        "tree": gen_tree(rnd),
+        "tree": tree,
         "srcname": rnd.choice(["src", "folder1", "a"]),
         "dest": dest,
         "write_into": write_into,
@@ -581,7 +597,7 @@ def main(argv=None):
         print("not reproduced")
         return 0
     quick = a.tier == "quick"
-    ev = common.Evidence(PROP, a.tier, a.seed, "exploration", "generated trees (depth <= 3, fan-out <= 3, empty directories, empty files, repeated names) x operation {upload dir, upload file, download dir, download file, recursive list, recursive remove} x destination {'', 1..3 components, absolute, '/'} x write_into x working directory {/, /w, /w/x} x block size x {MLSD server, LIST-fallback server}; remote / local trees are compared byte for byte with the tutorial's placement rule; non-trivial = every run; distinct = distinct run digests One case in five is a sequence of 3..7 operations on one connection checked against a model of the remote tree; one in ten downloads a tree with an unreadable entry.")
+    ev = common.Evidence(PROP, a.tier, a.seed, "exploration", "generated trees (depth <= 3, fan-out <= 3, empty directories, empty files, repeated names; one in twenty a chain 12..64 levels deep, one in twenty-five a directory with 90..260 entries) x operation {upload dir, upload file, download dir, download file, recursive list, recursive remove} x destination {'', 1..3 components, absolute, '/'} x write_into x working directory {/, /w, /w/x} x block size x {MLSD server, LIST-fallback server}; remote / local trees are compared byte for byte with the tutorial's placement rule; non-trivial = every run; distinct = distinct run digests One case in five is a sequence of 3..7 operations on one connection checked against a model of the remote tree; one in ten downloads a tree with an unreadable entry.")
     rep = common.Reporter(PROP, ev)
     deadline = time.time() + (a.budget or (60 if quick else 1200))
     n = 3000 if quick else 400000
